@@ -26,6 +26,7 @@ PLANS = {
             S("c02_reuse", 500, 15000),   # one aio reused across operation kinds: nothing leaks from one use to the next
             S("c02_many", 300, 6000),
             S("c07_collect", 600, 18000, label="collect"),  # aio reuse with absolute expirations (surveyor protocol)
+            S("c04_latecancel", 300, 10000, label="latecancel"),  # a cancel code only for an operation that was cancelled
             S("c10_device", 400, 12000, label="device"),  # nng_device_aio must complete after cancel/timeout also while traffic flows     # up to 260 deadlines in the same instant: none forgotten, none early
         ],
         "assumptions": ["internal aios are observed through link-time wrapping of nni_task_*/nni_aio_* (sim/aiomon.c); the monitor self-reports its event counts in stats"],
@@ -40,6 +41,7 @@ PLANS = {
             S("c04_prewire", 300, 9000),   # replies to request ids that are queued but not yet on the wire
             S("c04_gone", 600, 18000),     # REP replies to a requester that has gone away: the request is consumed all the same
             S("c04_dead", 900, 27000),     # guessed ids of requests that died before the wire (timed out, cancelled, superseded)
+            S("c04_latecancel", 600, 20000),  # a cancel that lost the race against the reply must not touch the context's next request (scenarios/c04b_latecancel.cc)
         ],
         "assumptions": ["the adversarial replier is a raw-mode REP socket (it controls the reply id word completely); requesters in part B are raw-mode REQ sockets"],
     },
